@@ -4,7 +4,9 @@ package c08
 
 import (
 	"fmt"
+	"strings"
 	"testing"
+	"testing/synctest"
 	"time"
 
 	"github.com/0xReLogic/Helios/internal/config"
@@ -58,25 +60,157 @@ func genBreakerConfig(rt *rapid.T) (bcfg, *config.Config) {
 	return c, cfg
 }
 
+// sideCfg: what is configured beside the breaker section in a recovery-script case. The property is
+// quantified over every accepted configuration, and the breaker's timeout is one duration among
+// several in the file (health_checks.passive.unhealthy_timeout - which is also how long an ejection by
+// an *active* check lasts -, the active checks' interval/timeout, server.timeouts.*). None of them is
+// related to circuit_breaker.timeout_seconds by the validation, the README or the sample files, so each
+// is drawn smaller than, equal to and (far) larger than it.
+type sideCfg struct {
+	Passive            bool `json:"passive"`
+	Active             bool `json:"active"`
+	UnhealthyThreshold int  `json:"unhealthy_threshold"`
+	UnhealthyTimeout   int  `json:"unhealthy_timeout"` // also set (and used by Helios) when only active checks are on
+	ActiveInterval     int  `json:"active_interval"`
+	ActiveTimeout      int  `json:"active_timeout"`
+	ShallowProbes      bool `json:"probes_always_answered_200"`
+	Handler            int  `json:"handler_timeout"` // 0 = omitted (default 30 s)
+	BackendRead        int  `json:"backend_read_timeout"`
+	Steady             int  `json:"backends_that_never_break"`
+}
+
+func (s sideCfg) describe() string {
+	var parts []string
+	if s.Passive {
+		parts = append(parts, fmt.Sprintf("passive on (unhealthy_threshold %d, unhealthy_timeout %ds)", s.UnhealthyThreshold, s.UnhealthyTimeout))
+	}
+	if s.Active {
+		parts = append(parts, fmt.Sprintf("active on (interval %ds, timeout %ds, probes always answered 200: %v; ejections last passive.unhealthy_timeout = %ds)", s.ActiveInterval, s.ActiveTimeout, s.ShallowProbes, s.UnhealthyTimeout))
+	}
+	if len(parts) == 0 {
+		return "health checks off"
+	}
+	return strings.Join(parts, ", ")
+}
+
+func rel(name string, v, timeout int) string {
+	switch {
+	case v < timeout:
+		return name + "<breaker-timeout"
+	case v == timeout:
+		return name + "=breaker-timeout"
+	}
+	return name + ">breaker-timeout"
+}
+
+func (s sideCfg) labels(c bcfg) []string {
+	var l []string
+	switch {
+	case s.Passive && s.Active:
+		l = append(l, "health-checks=active+passive")
+	case s.Passive:
+		l = append(l, "health-checks=passive")
+	case s.Active:
+		l = append(l, "health-checks=active")
+	default:
+		l = append(l, "health-checks=off")
+	}
+	if s.Passive || s.Active {
+		l = append(l, "health-checks-on", rel("unhealthy_timeout", s.UnhealthyTimeout, c.Timeout))
+	}
+	if s.Passive {
+		l = append(l, "passive-health-checks-on")
+	}
+	h := s.Handler
+	if h == 0 {
+		h = 30
+	}
+	l = append(l, rel("handler-timeout", h, c.Timeout))
+	if s.Steady > 0 {
+		l = append(l, "part-of-the-pool-never-breaks")
+	}
+	if s.Active && s.ShallowProbes {
+		l = append(l, "active-probes-always-answered-200")
+	}
+	return l
+}
+
+// genSide draws the sections beside the breaker and writes them into cfg.
+func genSide(rt *rapid.T, c bcfg, cfg *config.Config) sideCfg {
+	var s sideCfg
+	switch k := rapid.IntRange(0, 9).Draw(rt, "health_checks"); {
+	case k < 6:
+	case k < 8:
+		s.Passive = true
+	case k < 9:
+		s.Passive, s.Active = true, true
+	default:
+		s.Active = true
+	}
+	if s.Passive || s.Active {
+		// shorter than, equal to, longer and far longer than the breaker's timeout (1/5/60 s): ejecting one flaky
+		// backend for ten minutes or an hour is an ordinary setting
+		s.UnhealthyTimeout = rapid.SampledFrom([]int{1, 5, 30, 60, 600, 3600, c.Timeout}).Draw(rt, "unhealthy_timeout")
+	}
+	if s.Passive {
+		s.UnhealthyThreshold = rapid.IntRange(1, 5).Draw(rt, "unhealthy_threshold")
+		cfg.HealthChecks.Passive = config.PassiveHealthCheckConfig{Enabled: true, UnhealthyThreshold: s.UnhealthyThreshold, UnhealthyTimeout: s.UnhealthyTimeout}
+	} else if s.Active {
+		// passive checks off: the value is still in the file and is what an ejection by an active check lasts
+		if rapid.IntRange(0, 3).Draw(rt, "unhealthy_timeout_omitted") == 0 {
+			s.UnhealthyTimeout = 0
+		}
+		cfg.HealthChecks.Passive = config.PassiveHealthCheckConfig{Enabled: false, UnhealthyThreshold: rapid.IntRange(0, 5).Draw(rt, "unhealthy_threshold"), UnhealthyTimeout: s.UnhealthyTimeout}
+	}
+	if s.Active {
+		// (interval, timeout); so that an hour-long window does not cost thousands of probe rounds of harness time,
+		// the interval is at least a sixtieth of unhealthy_timeout
+		var its [][2]int
+		for _, it := range [][2]int{{2, 1}, {10, 7}, {10, 1}, {30, 5}, {90, 60}} {
+			if it[0]*60 >= s.UnhealthyTimeout {
+				its = append(its, it)
+			}
+		}
+		it := rapid.SampledFrom(its).Draw(rt, "active_interval_timeout")
+		s.ActiveInterval, s.ActiveTimeout = it[0], it[1]
+		// what the probed path says about the application: in two cases of three the health endpoint keeps answering
+		// 200 while proxied requests fail (a shallow health check - the checks are configured but cannot act), otherwise
+		// a probe meets what a request would meet
+		s.ShallowProbes = rapid.IntRange(0, 2).Draw(rt, "shallow_probes") > 0
+		cfg.HealthChecks.Active = config.ActiveHealthCheckConfig{Enabled: true, Interval: it[0], Timeout: it[1], Path: rapid.SampledFrom([]string{"/", "/health"}).Draw(rt, "active_path")}
+	}
+	// server timeouts: the end-to-end handler timeout (requests are instantaneous here, so it never fires) and the
+	// backend read timeout, below and above the breaker's timeout; lab.BaseConfig's day-long handler timeout is one value
+	s.Handler = rapid.SampledFrom([]int{86400, 86400, 0, 1, 10, 30, 300}).Draw(rt, "handler_timeout")
+	cfg.Server.Timeouts.Handler = s.Handler
+	s.BackendRead = rapid.SampledFrom([]int{0, 0, 1, 30, 600}).Draw(rt, "backend_read_timeout")
+	cfg.Server.Timeouts.BackendRead = s.BackendRead
+	// in one case of four with a pool of two or three, part of the pool never breaks (one backend of three goes bad:
+	// the breaker still counts its failures, the others keep answering)
+	if nb := len(cfg.Backends); nb >= 2 && rapid.IntRange(0, 3).Draw(rt, "partial_outage") == 0 {
+		s.Steady = rapid.IntRange(1, nb-1).Draw(rt, "steady")
+	}
+	return s
+}
+
 func TestC08Liveness(t *testing.T) {
 	sub := lab.Sub("breaker-recovery-script", "rapid: breaker section (failure/success threshold 1-3 - in one case of twelve success_threshold 100-300 with max_requests omitted, equal or above, failure_threshold up to 50 -, max_requests unset or 1-4 or huge, interval/timeout 1/5/60 s) accepted by the real config.Validate, balancer built the real way (OnStateChange callback installed), "+
-		"a drawn history of requests / backend behaviour changes (good, 5xx, unreachable, abort mid-body) / time advances brings the breaker into some state; then the bounded recovery script: all backends good, advance timeout+1ms, "+
+		"beside the breaker section the other durations of the file are drawn: health checks {off / passive / active / both; unhealthy_timeout 1 s-1 h, i.e. shorter than, equal to and far longer than the breaker's timeout - it is also how long an ejection by an active check lasts, and may be omitted when only active checks are on; unhealthy_threshold 1-5; active interval/timeout 2/1-90/60 s with probes that mirror the backend or are always answered 200}, "+
+		"server.timeouts.handler omitted/1 s-1 day and backend_read 0-600 s, and in one case of four part of a pool of 2-3 never breaks; "+
+		"a drawn history of requests / backend behaviour changes (good, 5xx, unreachable, abort mid-body) / time advances brings the breaker into some state; then the bounded recovery script: all backends good, advance timeout+1ms (the breaker's timeout only, whatever the other durations are, whenever some backend can never have been ejected - fewer failed answers than unhealthy_threshold and, with mirroring probes, never anything but good; otherwise the unhealthy windows are waited out too), "+
 		"up to success_threshold+max_requests+2 requests (one extra advance if a trial failed), after which the breaker must be CLOSED and the next 3 requests all reach a backend; every call guarded by a 20 s no-progress watchdog; "+
 		"non-trivial = breaker open or half-open when the script starts")
 	sub.NontrivialFloor(0.45)
-	lab.Assume("L1: scripted RoundTripper replaces http.Transport; virtual time; breaker state read from the published circuit_breaker_metrics")
+	sub.Floor("health-checks-on,some-backend-never-ejected:only-breaker-timeout-granted", 0.15)
+	sub.Floor("breaker-not-closed,unhealthy_timeout>breaker-timeout,only-breaker-timeout-granted", 0.02)
+	lab.Assume("L1: scripted RoundTripper replaces http.Transport (and http.DefaultTransport for the active prober); virtual time; breaker state read from the published circuit_breaker_metrics")
 	maxLen := lab.Scale(30, 60)
 	lab.Check(t, sub, 3000, 100000, func(rt *rapid.T) {
 		c, cfg := genBreakerConfig(rt)
-		// the breaker is rarely the only protection configured: in one case of three passive health checks are on as
-		// well (as in the shipped helios.yaml), so that failing backends are also ejected for a while - "whenever
-		// requests would succeed again" then means: backends answer well, and both the breaker timeout and the
-		// unhealthy windows are over
-		passiveTO := 0
-		if rapid.IntRange(0, 2).Draw(rt, "passive") == 0 {
-			passiveTO = rapid.SampledFrom([]int{1, 5, 60}).Draw(rt, "unhealthy_timeout")
-			cfg.HealthChecks.Passive = config.PassiveHealthCheckConfig{Enabled: true, UnhealthyThreshold: rapid.IntRange(1, 5).Draw(rt, "unhealthy_threshold"), UnhealthyTimeout: passiveTO}
-		}
+		// the breaker is rarely the only protection configured, and its timeout is not the only duration in the file:
+		// the other sections (health checks, server timeouts) are drawn beside it - see genSide. "After at most
+		// timeout" is about circuit_breaker.timeout_seconds for every accepted combination.
+		side := genSide(rt, c, cfg)
 		if err := cfg.Validate(); err != nil {
 			sub.Count("config-rejected-by-validator", 1)
 			rt.Skip("configuration not accepted: " + err.Error())
@@ -84,92 +218,164 @@ func TestC08Liveness(t *testing.T) {
 		n := rapid.IntRange(0, maxLen).Draw(rt, "n")
 		var hist []string
 		var viol, startState, trafficKind string
+		earlyWait := false
 		wd := lab.StartWatchdog(t.Name(), "breaker-recovery-script", lab.NoProgress, func() any {
-			return map[string]any{"cfg": c, "strategy": cfg.LoadBalancer.Strategy, "history": hist}
+			return map[string]any{"cfg": c, "side": side, "strategy": cfg.LoadBalancer.Strategy, "history": hist}
 		})
 		defer wd.Stop()
-		rapid.SyncTest(rt, func(rt *rapid.T) {
-			lb, err := loadbalancer.NewLoadBalancer(cfg)
-			if err != nil {
-				rt.Fatalf("harness: %v", err)
-			}
-			defer lb.Stop()
-			fn := lab.NewFakeNet()
-			fn.Install(lb)
-			nb := len(cfg.Backends)
-			for i := 0; i < nb; i++ {
-				fn.SetFailStatus(lab.BackendHost(i), rapid.SampledFrom([]int{500, 500, 501, 502, 503, 504, 505, 599}).Draw(rt, "fail_status"))
-				fn.SetInterimStatus(lab.BackendHost(i), rapid.SampledFrom([]int{103, 103, 100, 102}).Draw(rt, "interim_status"))
-			}
-			behaviours := []lab.Behaviour{lab.Good, lab.Status5xx, lab.Status5xx, lab.Unreachable, lab.AbortBody, lab.Status4xx}
-			for i := 0; i < nb; i++ {
-				b := rapid.SampledFrom(behaviours).Draw(rt, "initial")
-				fn.Set(lab.BackendHost(i), b)
-				hist = append(hist, fmt.Sprintf("set(b%d,%v)", i, b))
-			}
-			// what the traffic looks like is drawn per case: ordinary GETs, requests that all offer a protocol
-			// upgrade (a WebSocket-only service: the scripted backends answer them like any other request), or a mix.
-			// "Whenever requests would succeed again ... the breaker is closed" does not depend on it.
-			traffic := rapid.SampledFrom([]string{"plain", "plain", "upgrade-only", "mixed"}).Draw(rt, "traffic")
-			trafficKind = traffic
-			req := func(k int) (status int, hit bool) {
-				before := fn.Arrivals()
-				var hdr map[string]string
-				if traffic == "upgrade-only" || traffic == "mixed" && k%2 == 1 {
-					hdr = map[string]string{"Connection": "Upgrade", "Upgrade": "websocket", "Sec-WebSocket-Version": "13", "Sec-WebSocket-Key": "dGhlIHNhbXBsZSBub25jZQ=="}
+		fn := lab.NewFakeNet()
+		// Helios's active prober uses the default transport: it is the scripted network while the case runs
+		fn.WithDefaultTransport(func() {
+			rapid.SyncTest(rt, func(rt *rapid.T) {
+				nb := len(cfg.Backends)
+				for i := 0; i < nb; i++ {
+					fn.SetFailStatus(lab.BackendHost(i), rapid.SampledFrom([]int{500, 500, 501, 502, 503, 504, 505, 599}).Draw(rt, "fail_status"))
+					fn.SetInterimStatus(lab.BackendHost(i), rapid.SampledFrom([]int{103, 103, 100, 102}).Draw(rt, "interim_status"))
 				}
-				s, _, _, _ := lab.Serve(lb, lab.Request("GET", "/x", fmt.Sprintf("10.0.0.%d:4000", 1+k%5), hdr))
-				return s, fn.Arrivals() > before
-			}
-			to := time.Duration(c.Timeout) * time.Second
-			iv := time.Duration(c.Interval) * time.Second
-			for i := 0; i < n; i++ {
-				k := rapid.IntRange(0, 99).Draw(rt, "op")
-				switch {
-				case k < 60:
-					s, _ := req(i)
-					hist = append(hist, fmt.Sprintf("req->%d", s))
-				case k < 75:
-					bi := rapid.IntRange(0, nb-1).Draw(rt, "backend")
-					b := rapid.SampledFrom(behaviours).Draw(rt, "behaviour")
-					fn.Set(lab.BackendHost(bi), b)
-					hist = append(hist, fmt.Sprintf("set(b%d,%v)", bi, b))
-				default:
-					d := rapid.SampledFrom([]time.Duration{time.Millisecond, iv / 2, iv + time.Millisecond, to / 2, to - time.Millisecond, to + time.Millisecond}).Draw(rt, "d")
+				behaviours := []lab.Behaviour{lab.Good, lab.Status5xx, lab.Status5xx, lab.Unreachable, lab.AbortBody, lab.Status4xx}
+				// ground truth kept by the harness, independent of Helios's bookkeeping: how many failed answers each
+				// backend has given to proxied requests, and whether it ever was anything but good (what a probe may have seen)
+				failed := make([]int, nb)
+				everBad := make([]bool, nb)
+				hostIdx := map[string]int{}
+				for i := 0; i < nb; i++ {
+					hostIdx[lab.BackendHost(i)] = i
+				}
+				// the scripted behaviours are in place before the balancer (and with it the active prober) starts
+				for i := 0; i < nb; i++ {
+					b := lab.Good
+					if i >= side.Steady {
+						b = rapid.SampledFrom(behaviours).Draw(rt, "initial")
+						if side.Steady > 0 && b == lab.Good {
+							b = lab.Status5xx // part of the pool is up for good: the rest starts out broken
+						}
+					}
+					fn.Set(lab.BackendHost(i), b)
+					if side.Active && side.ShallowProbes {
+						fn.SetProbeBehaviour(lab.BackendHost(i), lab.Good)
+					}
+					everBad[i] = everBad[i] || b != lab.Good
+					hist = append(hist, fmt.Sprintf("set(b%d,%v)", i, b))
+				}
+				lb, err := loadbalancer.NewLoadBalancer(cfg)
+				if err != nil {
+					rt.Fatalf("harness: %v", err)
+				}
+				defer lb.Stop()
+				fn.Install(lb)
+				synctest.Wait() // the prober's first round (if any) has run
+				// what the traffic looks like is drawn per case: ordinary GETs, requests that all offer a protocol
+				// upgrade (a WebSocket-only service: the scripted backends answer them like any other request), or a mix.
+				// "Whenever requests would succeed again ... the breaker is closed" does not depend on it.
+				traffic := rapid.SampledFrom([]string{"plain", "plain", "upgrade-only", "mixed"}).Draw(rt, "traffic")
+				trafficKind = traffic
+				req := func(k int) (status int, hit bool) {
+					before := fn.Arrivals()
+					var hdr map[string]string
+					if traffic == "upgrade-only" || traffic == "mixed" && k%2 == 1 {
+						hdr = map[string]string{"Connection": "Upgrade", "Upgrade": "websocket", "Sec-WebSocket-Version": "13", "Sec-WebSocket-Key": "dGhlIHNhbXBsZSBub25jZQ=="}
+					}
+					s, _, _, _ := lab.Serve(lb, lab.Request("GET", "/x", fmt.Sprintf("10.0.0.%d:4000", 1+k%5), hdr))
+					after := fn.Arrivals()
+					for a := before; a < after; a++ {
+						if fn.FailedAt(a) {
+							failed[hostIdx[fn.HostAt(a)]]++
+						}
+					}
+					return s, after > before
+				}
+				sleep := func(d time.Duration) {
 					time.Sleep(d)
-					hist = append(hist, fmt.Sprintf("adv(%v)", d))
+					synctest.Wait() // probe rounds due by now have run: the case does not depend on goroutine scheduling
 				}
-			}
-			// ---------------- bounded recovery script ----------------
-			startState = publishedState(lb)
-			for i := 0; i < nb; i++ {
-				fn.Set(lab.BackendHost(i), lab.Good)
-			}
-			effMR := c.MR
-			if effMR == 0 || effMR > 8 {
-				effMR = 3 // only used to size the script generously below
-			}
-			budget := c.ST + effMR + 4
-			hist = append(hist, "RECOVER")
-			time.Sleep(max(to, time.Duration(passiveTO)*time.Second) + time.Millisecond)
-			for j := 0; j < budget; j++ {
-				s, hit := req(100 + j)
-				hist = append(hist, fmt.Sprintf("req->%d", s))
-				if publishedState(lb) == "CLOSED" && hit {
-					break
+				to := time.Duration(c.Timeout) * time.Second
+				iv := time.Duration(c.Interval) * time.Second
+				ut := time.Duration(side.UnhealthyTimeout) * time.Second
+				advances := []time.Duration{time.Millisecond, iv / 2, iv + time.Millisecond, to / 2, to - time.Millisecond, to + time.Millisecond}
+				if side.Passive || side.Active {
+					advances = append(advances, ut/2, ut+time.Millisecond)
 				}
-			}
-			if st := publishedState(lb); st != "CLOSED" {
-				viol = fmt.Sprintf("all backends answer 200, timeout (%v) has passed and %d further requests were sent, but the breaker is still %s: traffic is locked out (passive health checks: %+v)", to, budget, st, cfg.HealthChecks.Passive)
-				return
-			}
-			for j := 0; j < 3; j++ {
-				s, hit := req(200 + j)
-				if !hit || s != 200 {
-					viol = fmt.Sprintf("breaker reports CLOSED but request %d after recovery was not admitted (status %d, reached backend: %v)", j+1, s, hit)
+				for i := 0; i < n; i++ {
+					k := rapid.IntRange(0, 99).Draw(rt, "op")
+					switch {
+					case k < 60:
+						s, _ := req(i)
+						hist = append(hist, fmt.Sprintf("req->%d", s))
+					case k < 75:
+						bi := rapid.IntRange(0, nb-1).Draw(rt, "backend")
+						b := rapid.SampledFrom(behaviours).Draw(rt, "behaviour")
+						if bi < side.Steady {
+							b = lab.Good // this backend stays up through the whole history (only part of the pool breaks)
+						}
+						fn.Set(lab.BackendHost(bi), b)
+						everBad[bi] = everBad[bi] || b != lab.Good
+						hist = append(hist, fmt.Sprintf("set(b%d,%v)", bi, b))
+					default:
+						d := rapid.SampledFrom(advances).Draw(rt, "d")
+						sleep(d)
+						hist = append(hist, fmt.Sprintf("adv(%v)", d))
+					}
+				}
+				// ---------------- bounded recovery script ----------------
+				startState = publishedState(lb)
+				for i := 0; i < nb; i++ {
+					fn.Set(lab.BackendHost(i), lab.Good)
+				}
+				effMR := c.MR
+				if effMR == 0 || effMR > 8 {
+					effMR = 3 // only used to size the script generously below
+				}
+				budget := c.ST + effMR + 4
+				hist = append(hist, "RECOVER")
+				// "Whenever requests would succeed again": every backend answers well from now on. Without health checks
+				// that is all it takes. With health checks a backend may still be ejected for up to unhealthy_timeout, and a
+				// request succeeds only if some backend is in rotation - which is certain for a backend that can never have
+				// been ejected: fewer failed answers than unhealthy_threshold in total (passive) and, with active checks whose
+				// probes meet what a request would meet, good whenever a probe may have looked (probes that are always answered
+				// 200 eject nobody). If there is such a backend, requests would succeed from now on and the
+				// only wait the statement grants is the breaker's own timeout; otherwise the script also waits out the
+				// unhealthy windows (unhealthy_timeout may be far longer than the breaker's timeout, or shorter).
+				var neverEjected []string
+				for i := 0; i < nb; i++ {
+					if side.Passive && failed[i] >= side.UnhealthyThreshold {
+						continue
+					}
+					if side.Active && !side.ShallowProbes && everBad[i] {
+						continue
+					}
+					neverEjected = append(neverEjected, lab.BackendName(i))
+				}
+				wait := to
+				if (side.Passive || side.Active) && len(neverEjected) == 0 {
+					wait = max(to, ut)
+				} else if side.Passive || side.Active {
+					earlyWait = true
+				}
+				sleep(wait + time.Millisecond)
+				hist = append(hist, fmt.Sprintf("adv(%v)", wait+time.Millisecond))
+				for j := 0; j < budget; j++ {
+					s, hit := req(100 + j)
+					hist = append(hist, fmt.Sprintf("req->%d", s))
+					if publishedState(lb) == "CLOSED" && hit {
+						break
+					}
+				}
+				if st := publishedState(lb); st != "CLOSED" {
+					why := "no health checks configured"
+					if side.Passive || side.Active {
+						why = fmt.Sprintf("health checks: %s; backends that were never ejected: %v", side.describe(), neverEjected)
+					}
+					viol = fmt.Sprintf("all backends answer 200, %v have passed since (circuit_breaker.timeout_seconds is %v) and %d further requests were sent, but the breaker is still %s: traffic is locked out beyond the breaker's timeout (%s; server.timeouts.handler %d)", wait+time.Millisecond, to, budget, st, why, cfg.Server.Timeouts.Handler)
 					return
 				}
-			}
+				for j := 0; j < 3; j++ {
+					s, hit := req(200 + j)
+					if !hit || s != 200 {
+						viol = fmt.Sprintf("breaker reports CLOSED but request %d after recovery was not admitted (status %d, reached backend: %v)", j+1, s, hit)
+						return
+					}
+				}
+			})
 		})
 		mrl := fmt.Sprint(c.MR)
 		if c.MR > 8 {
@@ -177,12 +383,16 @@ func TestC08Liveness(t *testing.T) {
 		}
 		labels := []string{"start-" + startState, fmt.Sprintf("st%d-mr%s", c.ST, mrl)}
 		labels = append(labels, "traffic="+trafficKind)
-		if passiveTO > 0 {
-			labels = append(labels, "passive-health-checks-on")
+		labels = append(labels, side.labels(c)...)
+		if earlyWait {
+			labels = append(labels, "health-checks-on,some-backend-never-ejected:only-breaker-timeout-granted")
+			if side.UnhealthyTimeout > c.Timeout && startState != "CLOSED" {
+				labels = append(labels, "breaker-not-closed,unhealthy_timeout>breaker-timeout,only-breaker-timeout-granted")
+			}
 		}
-		sub.Case(map[string]any{"cfg": c, "passive": cfg.HealthChecks.Passive, "strategy": cfg.LoadBalancer.Strategy, "backends": len(cfg.Backends), "traffic": trafficKind, "history": hist}, startState != "CLOSED", labels...)
+		sub.Case(map[string]any{"cfg": c, "side": side, "strategy": cfg.LoadBalancer.Strategy, "backends": len(cfg.Backends), "traffic": trafficKind, "history": hist}, startState != "CLOSED", labels...)
 		if viol != "" {
-			rt.Fatalf("cfg %+v strategy %s history %v: %s", c, cfg.LoadBalancer.Strategy, hist, viol)
+			rt.Fatalf("cfg %+v %s strategy %s history %v: %s", c, side.describe(), cfg.LoadBalancer.Strategy, hist, viol)
 		}
 	})
 }
